@@ -141,6 +141,14 @@ ExtensionFails(r) ==
     \cup Cl({<<x[2], x[4]>> : x \in Mine(A.asex, o)} = ExpSenseExamples(T, li, xi), "ExtensionSenseExamples")
     \cup Cl({<<x[2], x[4], x[5]>> : x \in Mine(A.acount, o)} = ExpCounts(T, li, xi), "ExtensionCounts")
     \cup Cl({<<x[2], x[4]>> : x \in Mine(A.ayex, o)} = ExpSynsetExamples(T, li, xi), "ExtensionSynsetExamples")
+    \* the base lexicon viewed alone reports what it reported before the extension was added
+    \* (senses, examples, counts, frames, synsets; forms / tags / pronunciations of an
+    \* unselected extension are C04's listed findings and are left to it)
+    \cup Cl(/\ Rng(r.bapi.asense) = Rng(r.api.asense) /\ Rng(r.bapi.asex) = Rng(r.api.asex)
+            /\ Rng(r.bapi.acount) = Rng(r.api.acount) /\ Rng(r.bapi.aframe) = Rng(r.api.aframe)
+            /\ Rng(r.bapi.asyn) = Rng(r.api.asyn) /\ Rng(r.bapi.ayex) = Rng(r.api.ayex)
+            /\ Rng(r.bapi.aword) = Rng(r.api.aword),
+            "BaseAloneUnchangedByExtension")
     \* the extension's own new words and synsets are reported with their content
     \cup Cl({w[3] : w \in Mine(A.aword, r.xspec)} = {e[3] : e \in {e \in Of(T.entry, xi) : ~e[4]}}, "ExtensionWords")
     \cup Cl({y[3] : y \in Mine(A.asyn, r.xspec)} = {y[4] : y \in {y \in Of(T.synset, xi) : ~y[3]}}, "ExtensionSynsets")
